@@ -21,9 +21,18 @@ without latch, and single-value reads of that bank), each on its own bus with it
 command by command (harness.bus.run_interleaved) - what two drivers in one process do.  Each must pass the
 single-sequence oracle on its own unit and return what it returns when run alone.
 
+Operations one after the other on ONE bank object: histories of the public operations of a MemoryBank and its values
+(latch(), unlatch(), read_all with and without latch, single-value reads, is_locked, last_address, is_addressable),
+run to their end, abandoned half-way (the driver stops asking, or raises into the sequence) or aborted by a garbled
+answer, on one to three units (each with a bus of its own), with another controller using the DTRs or the lock byte in
+between.  Every complete read of such a history is judged by the single-sequence oracle against the unit as it is at
+that moment, and compared with the same read made by a bank object WITHOUT a past (a new MemoryBank declared from the
+same public declarations) against a copy of the unit: same commands on the bus, same result, same memory afterwards.
+
 This module also holds what C10 (memory writes) shares: discovery, unit construction, the
 query-indexed fault bus.
 """
+import copy
 import hashlib
 import numbers
 
@@ -46,7 +55,12 @@ RULE = ("single value: (value class, addressing kind, image, last accessible loc
         "flight: (2 or 3 single-value / whole-bank tuples as above - mostly of ONE bank object, units with different "
         "images, last locations, addressing - and the order in which the sequences advance command by command: "
         "round-robin, blocks, head starts, nested, late start, Hypothesis-drawn); non-trivial = the sequences really "
-        "overlap in time")
+        "overlap in time; operations one after the other: (bank object, 1-3 units as above, a list of 1-7 operations of "
+        "that bank object - latch / unlatch / whole-bank read / single-value read / is_locked / last_address / "
+        "is_addressable, each complete, abandoned after n commands or aborted by a fault, or another controller changing "
+        "DTRs / lock byte - ending in a complete read on the same or another unit): a list of ~40 prefixes x 4 final reads "
+        "per bank object, plus Hypothesis-drawn histories; non-trivial = the judged read has at least one earlier "
+        "operation of the same bank object behind it")
 ASSUMPTIONS = [
     "bus units follow harness/model_gear.py / model_devmem.py: READ MEMORY LOCATION answers NO above the last accessible "
     "location and at unimplemented locations, advances DTR0 either way, and clears writeEnableState (IEC 62386-102 "
@@ -68,6 +82,13 @@ ASSUMPTIONS = [
     "read sequences in flight at the same time on separate buses (one driver per DALI line in one process, stepped "
     "alternately) are independent: each must satisfy the statement on its own unit and return exactly what it returns "
     "when it runs alone against that unit (harness.bus.run_interleaved)",
+    "operations run one after the other are independent: a read must satisfy the statement on the unit as it is when the "
+    "read starts, whatever the bank object was used for before (on this or another unit, completed or abandoned), and do "
+    "exactly what a MemoryBank newly declared from the same declarations does against the same unit",
+    "units do not drift outside a judged latched read; a unit that an aborted read left latched keeps the latched values "
+    "as its live values (so that 'the bytes stored' is well defined for the next read)",
+    "latch(), unlatch(), is_locked(), last_address(), is_addressable() themselves are not judged (the statement is about "
+    "reads); whatever they raise is ignored",
 ]
 
 # The read_all latch defect found at the pinned commit is repaired in /repo (KNOWN_FINDINGS.txt "fixed:" line), so
@@ -464,13 +485,14 @@ def settle(job, oc):
                             "%s raised %r" % (job.where, e))]
 
 
-def prep_value(case):
+def prep_value(case, w=None, cls=None):
     L = lib()
     row = all_rows()[case["key"]]
-    cls = L["classes"].get(case["key"])
+    cls = cls or L["classes"].get(case["key"])
     if cls is None:
         return None
-    w = World(row["bankobj"], case["addr"], case["short"], case["image"], case["last"], case["holes"], case.get("lock"))
+    if w is None:
+        w = World(row["bankobj"], case["addr"], case["short"], case["image"], case["last"], case["holes"], case.get("lock"))
     fault = tuple(case["fault"]) if case.get("fault") else None
     bus = MemBus(w.units, fault=fault, max_commands=40 + 4 * row["width"], watch=w.target)
     return Job("value", case, w, bus, lambda: cls.read(make_addr(case["addr"], case["short"])),
@@ -531,22 +553,26 @@ def judge_value(job, oc):
 
 
 # --------------------------------------------------------------------- whole bank ----
-def prep_bank(case):
+def prep_bank(case, w=None, bank_obj=None):
     L = lib()
     bankobj = case["bank"]
     spec = bankspec(bankobj)
-    bank_obj = L["banks"].get(bankobj)
+    bank_obj = bank_obj or L["banks"].get(bankobj)
     if bank_obj is None:
         return None
     use_latch = case["use_latch"]
     holes = case["holes"]
     last = case["last"]
     # can a latch be set at all?
-    probe = World(bankobj, case["addr"], case["short"], case["image"], last, holes, case.get("lock"))
+    probe = w or World(bankobj, case["addr"], case["short"], case["image"], last, holes, case.get("lock"))
     latch_possible = bool(use_latch and spec["has_latch"] and probe.implemented(2))
     drift = bool(case.get("drift")) and latch_possible
-    w = World(bankobj, case["addr"], case["short"], case["image"], last, holes, case.get("lock"), drift=drift) \
-        if drift else probe
+    if w is not None:
+        # a unit with a past (see case_history): it drifts during this read only
+        w.bank.drift = make_drift() if drift else None
+    else:
+        w = World(bankobj, case["addr"], case["short"], case["image"], last, holes, case.get("lock"), drift=drift) \
+            if drift else probe
     fault = tuple(case["fault"]) if case.get("fault") else None
     bus = MemBus(w.units, fault=fault, max_commands=300, watch=w.target)
     where = "read_all(use_latch=%s%s) of %s" % (use_latch, ", live memory drifting" if drift else "", _where(case))
@@ -782,11 +808,255 @@ def _short_list(x):
     return str(x) if len(x) <= 24 else "%s... (%d entries)" % (str(x[:24])[:-1], len(x))
 
 
+# ------------------------------------------------- operations one after the other ----
+class DriverFailed(Exception):
+    """What a driver that lost its connection raises into the sequence it is running."""
+
+
+READ_OPS = ("read_all", "value")
+HELPER_OPS = ("latch", "unlatch", "is_locked", "last_address", "is_addressable", "value_is_locked")
+
+
+def rebase(w):
+    """The unit as it is NOW becomes the 'before' picture of the next judged read."""
+    b = w.bank
+    b.drift = None
+    if b.snapshot is not None:
+        # left latched: the latched values are the unit's values (the lock byte is live)
+        for i in range(3, len(b.contents)):
+            b.contents[i] = b.snapshot[i]
+    w.image = list(b.contents)
+    b.drift_calls = 0
+    b.snapshots = []
+    w.target.read_log = []
+    w.target.mem_write_log = []
+    w.before_others = [list(x.contents) for _, x in w.others]
+
+
+def clone_world(w):
+    """An independent copy of the units of w as they are now."""
+    c = copy.copy(w)
+    c.units = copy.deepcopy(w.units)
+    c.target, c.neighbour, c.twin = c.units
+    bno = w.spec["bank"]
+    c.bank = c.target.banks[bno]
+    c.decoy = c.target.banks[(bno + 1) % 256]
+    c.others = [("decoy bank", c.decoy), ("neighbour", c.neighbour.banks[bno]), ("twin", c.twin.banks[bno])]
+    c.image = list(w.image)
+    c.before_others = [list(x) for x in w.before_others]
+    return c
+
+
+def fresh_bank(bankobj):
+    """A MemoryBank without a past, declared from the public declarations of the library's bank object:
+    -> (bank object, {value class name: new value class, ...}, {new value class: the library's class})"""
+    L = lib()
+    src = L["banks"][bankobj]
+    location = L["location"]
+    la = src.LastAddress.locations[0].default
+    nb = location.MemoryBank(src.address, la, has_lock=src.has_lock, has_latch=src.has_latch)
+    by_name, back = {"LastAddress": nb.LastAddress}, {nb.LastAddress: src.LastAddress}
+    if nb.LockByte is not None:
+        by_name["LockByte"] = nb.LockByte
+        back[nb.LockByte] = src.LockByte
+    for cls in src.values:
+        if cls is src.LastAddress or cls is src.LockByte:
+            continue
+        new = type(cls.__name__, (cls,), {"bank": nb, "locations": tuple(cls.locations)})
+        by_name[cls.__name__] = new
+        back[new] = cls
+    return nb, by_name, back
+
+
+def run_partial(bus, gen, n, how):
+    """Advance gen until it wants to put its (n+1)-th command on the bus, then give it up: 'close' (the caller closes
+    the generator), 'throw' (the driver raises into it), 'drop' (the caller just forgets it)."""
+    from dali import command
+    resp, sent = None, 0
+    try:
+        while True:
+            item = gen.send(resp)
+            resp = None
+            if isinstance(item, command.Command):
+                if sent >= n:
+                    break
+                resp = bus.transact(item)
+                sent += 1
+    except StopIteration:
+        return "finished"
+    if how == "throw":
+        try:
+            gen.throw(DriverFailed("connection lost"))
+        except (DriverFailed, StopIteration):
+            pass
+        finally:
+            gen.close()
+    elif how == "close":
+        gen.close()
+    del gen
+    return "abandoned"
+
+
+def _tolerated(e):
+    """Is e something an operation that is not judged may raise?  (anything that comes out of the library)"""
+    if isinstance(e, (DriverFailed, NonTermination)):
+        return True
+    return library_frame(e.__traceback__) is not None
+
+
+def _op_text(op, units):
+    u = units[op["unit"]]
+    s = op["op"]
+    if s == "read_all":
+        s += "(use_latch=%s)" % op.get("use_latch", True)
+    if op.get("key"):
+        s += " " + op["key"].split(".", 1)[-1]
+    if s == "other-controller":
+        s = "another controller uses the DTRs" + (" and writes 0x%02x to the lock byte" % op["lock"] if op.get("lock") is not None else "")
+    s += " @unit%d" % op["unit"]
+    if op.get("fault"):
+        s += " [%s at read #%d]" % (op["fault"][1], op["fault"][0])
+    if op.get("stop"):
+        s += " [given up after %d command(s): %s]" % (op["stop"][0], op["stop"][1])
+    return s
+
+
+def _sub_case(bankobj, u, op):
+    if op["op"] == "value":
+        return dict(u, kind="value", key=op["key"], fault=op.get("fault"))
+    return dict(u, kind="bank", bank=bankobj, use_latch=bool(op.get("use_latch", True)), drift=bool(op.get("drift")),
+                fault=op.get("fault"))
+
+
+def case_history(case):
+    """Operations of ONE bank object run one after the other (never overlapping) on case['units'], each unit with buses
+    of its own.  Every complete read is judged on the unit as it is when the read starts, and compared with the same
+    read made by a bank object without a past against a copy of that unit."""
+    L = lib()
+    bankobj = case["bank"]
+    bank_obj = L["banks"].get(bankobj)
+    if bank_obj is None:
+        return []
+    spec = bankspec(bankobj)
+    units = case["units"]
+    worlds = [World(bankobj, u["addr"], u["short"], u["image"], u["last"], u["holes"], u.get("lock")) for u in units]
+    out, seen = [], set()
+    judged = 0
+
+    def add(sig, msg):
+        if sig not in seen:
+            seen.add(sig)
+            out.append((sig, msg))
+
+    for k, op in enumerate(case["ops"]):
+        w, u = worlds[op["unit"]], units[op["unit"]]
+        name = op["op"]
+        if name == "other-controller":
+            t = w.target
+            t.dtr0, t.dtr1, t.dtr2 = 0xA7, (spec["bank"] + 1) % 256, 0x5C
+            t.write_enabled = False
+            if op.get("lock") is not None and spec["has_lock_byte"] and w.bank.readable(2) is not None:
+                w.bank.write(2, op["lock"])
+            continue
+        addr = make_addr(u["addr"], u["short"])
+        cls = L["classes"].get(op.get("key")) if op.get("key") else None
+        if name in ("value", "is_addressable", "value_is_locked") and cls is None:
+            continue
+        if name in READ_OPS and not op.get("stop"):
+            # ---- a complete read: judged
+            rebase(w)
+            sub = _sub_case(bankobj, u, op)
+            if spec["has_lock_byte"]:
+                sub["lock"] = w.image[2]           # what the lock byte holds now (for the description only)
+            ref_w = clone_world(w)
+            job = PREP[sub["kind"]](sub, w=w)
+            oc = run_alone(job)
+            vs = JUDGE[job.kind](job, oc)
+            w.bank.drift = None
+            judged += 1
+            past = "; ".join(_op_text(o, units) for o in case["ops"][:k]) or "nothing"
+            try:
+                nb, by_name, back = fresh_bank(bankobj)
+            except Exception as e:  # noqa: the declarations cannot be repeated - no reference then
+                if not _tolerated(e):
+                    raise
+                nb = None
+            if nb is None or (cls is not None and cls.__name__ not in by_name):
+                for sig, msg in vs:
+                    add(sig, "%s (after: %s)" % (msg, past) if k else msg)
+                continue
+            ref = PREP[sub["kind"]](sub, w=ref_w, bank_obj=nb) if sub["kind"] == "bank" else \
+                PREP[sub["kind"]](sub, w=ref_w, cls=by_name[cls.__name__])
+            roc = run_alone(ref)
+            ref_w.bank.drift = None
+            if roc[0] == "returned" and isinstance(roc[1], dict):
+                roc = ("returned", {back.get(c, c): v for c, v in roc[1].items()})
+            rvs = JUDGE[ref.kind](ref, roc)
+            for sig, msg in rvs:                   # the read fails without a past as well
+                add(sig, msg)
+            alone = set(sig for sig, _ in rvs)
+            why = None
+            if _result_diff(oc, roc):
+                why = _result_diff(oc, roc)
+            elif job.bus.trace != ref.bus.trace:
+                a, b = job.bus.trace, ref.bus.trace
+                i = next((i for i in range(min(len(a), len(b))) if a[i] != b[i]), min(len(a), len(b)))
+                why = "the frames on the bus differ from #%d on: %s, without a past %s (%d and %d frames in all)" % (
+                    i, _frame_text(a[i:i + 3]), _frame_text(b[i:i + 3]), len(a), len(b))
+            elif _memory(job.w) != _memory(ref.w):
+                why = "the unit's memory is left different"
+            elif [v for v in vs if v[0] not in alone]:
+                why = "same frames, result and memory, but only the read with a past fails the single-read oracle"
+            fresh = [v for v in vs if v[0] not in alone]
+            if why:
+                add("C09:earlier-operations-interfere:%s" % name,
+                    "%s of bank object %s, after these operations of the same bank object: %s - compared with the same read "
+                    "by a newly declared equivalent MemoryBank against a copy of the unit: %s%s"
+                    % (job.where, bankobj, past, why, ("; " + "; ".join("%s [%s]" % (m, s_) for s_, m in fresh[:2])) if fresh else ""))
+            continue
+        # ---- not judged: helper operations, and reads that are given up
+        if name not in READ_OPS + HELPER_OPS:
+            raise ValueError("operation %r" % (name,))
+        bus = MemBus(w.units, fault=tuple(op["fault"]) if op.get("fault") else None, max_commands=400, watch=w.target)
+        try:
+            if name == "latch":
+                gen = bank_obj.latch(addr)
+            elif name == "unlatch":
+                gen = bank_obj.unlatch(addr)
+            elif name == "is_locked":
+                gen = bank_obj.is_locked(addr)
+            elif name == "last_address":
+                gen = bank_obj.last_address(addr)
+            elif name == "is_addressable":
+                gen = cls.is_addressable(addr)
+            elif name == "value_is_locked":
+                gen = cls.is_locked(addr)
+            elif name == "read_all":
+                gen = bank_obj.read_all(addr, use_latch=bool(op.get("use_latch", True)))
+            else:
+                gen = cls.read(addr)
+            if op.get("stop"):
+                run_partial(bus, gen, op["stop"][0], op["stop"][1])
+            else:
+                bus.run(gen)
+        except Exception as e:  # noqa: not judged
+            if not _tolerated(e):
+                raise
+    LAST_OUTCOME[0] = "outcome:history:%d-judged-read%s" % (judged, "" if judged == 1 else "s")
+    return out
+
+
+def _frame_text(fr):
+    return "[%s]" % ", ".join("%d-bit %#x%s -> %s" % (b, v, " x2" if t else "", a or "no answer") for b, v, t, a in fr) if fr else "[end]"
+
+
 def run_case(case):
     if case["kind"] == "value":
         return case_value(case)
     if case["kind"] == "interleaved":
         return case_interleaved(case)
+    if case["kind"] == "history":
+        return case_history(case)
     return case_bank(case)
 
 
@@ -794,6 +1064,27 @@ def run_case(case):
 def features(case):
     """Classes of a case computed from the case and the reference tables alone."""
     f = []
+    if case["kind"] == "history":
+        ops = case["ops"]
+        reads = [i for i, o in enumerate(ops) if o["op"] in READ_OPS and not o.get("stop")]
+        if reads and reads[-1] > 0:
+            f.append("history:read-with-a-past")
+            last = ops[reads[-1]]
+            before = ops[:reads[-1]]
+            if any(o["op"] == "latch" for o in before):
+                f.append("history:after-latch()")
+            if any(o.get("stop") for o in before):
+                f.append("history:after-abandoned-sequence")
+            if any(o.get("fault") for o in before):
+                f.append("history:after-faulted-read")
+            if any(o["unit"] != last["unit"] for o in before):
+                f.append("history:earlier-operations-on-another-unit")
+            if any(o["unit"] == last["unit"] for o in before):
+                f.append("history:earlier-operations-on-the-same-unit")
+            if last["op"] == "read_all" and last.get("use_latch", True) and bankspec(case["bank"])["has_latch"]:
+                f.append("history:latched-read")
+        f.append("history:%d-units" % len(case["units"]))
+        return f
     if case["kind"] == "interleaved":
         subs = case["jobs"]
         f.append("interleaved:%d-sequences" % len(subs))
@@ -833,7 +1124,7 @@ def features(case):
     return f
 
 
-NONTRIVIAL = ("truncated", "holed", "latch+drift", "fault:silence", "fault:garble")
+NONTRIVIAL = ("truncated", "holed", "latch+drift", "fault:silence", "fault:garble", "history:read-with-a-past")
 
 
 def is_nontrivial(case):
@@ -1044,6 +1335,96 @@ def _shard_inter(arg):
     return res
 
 
+def _hist_case(bank, units, ops):
+    return {"kind": "history", "bank": bank, "units": units, "ops": ops}
+
+
+def _unit(addr, short, image, last, holes=(), lock=0xFF):
+    return {"addr": addr, "short": short, "image": image, "last": last, "holes": list(holes), "lock": lock}
+
+
+def hist_prefixes(top, key, quick):
+    """Named lists of operations (on units 0 and 1) that a judged read may have behind it."""
+    A, B = 0, 1
+    hows = ("close", "throw", "drop")
+
+    def op(name, unit=A, **kw):
+        return dict({"op": name, "unit": unit}, **kw)
+
+    def stop(o, n):
+        return dict(o, stop=[n, hows[n % 3]])
+
+    la, lb, ua, ub = op("latch"), op("latch", B), op("unlatch"), op("unlatch", B)
+    ra, rn = op("read_all", use_latch=True), op("read_all", use_latch=False)
+    va = op("value", key=key)
+    out = [("latch", [la]), ("latch-on-other-unit", [lb]), ("latch+value", [la, va]), ("latch+unlatch", [la, ua]),
+           ("unlatch", [ua]), ("latch-twice", [la, la]), ("latch+unlatch-twice", [la, ua, ua]),
+           ("latch-two-units", [la, lb, ua]), ("latch-two-units+unlatch-both", [la, lb, ub, ua]),
+           ("latch+released-by-other-controller", [la, op("other-controller", lock=0xFF)]),
+           ("latch+other-controller", [la, op("other-controller")]),
+           ("latch+read_all-without-latch+unlatch", [la, rn, ua]), ("latch+read_all", [la, ra]),
+           ("read_all", [ra]), ("read_all-without-latch", [rn]), ("read_all-twice", [ra, ra]),
+           ("queries", [op("is_locked"), op("last_address"), op("is_addressable", key=key), op("value_is_locked", key=key)]),
+           ("value", [va]), ("value+other-controller", [va, op("other-controller")])]
+    for n in (1, 2, 3) if quick else (0, 1, 2, 3, 4):
+        out.append(("latch-given-up", [stop(la, n)]))
+        out.append(("latch+unlatch-given-up", [la, stop(ua, n)]))
+    # read_all with latch: 3 commands read the last location, 3 set the latch, then the reads, then 3 release it
+    body = top - 2
+    stops = (1, 3, 4, 5, 6, 7, 6 + body // 2, 5 + body, 6 + body, 7 + body, 8 + body) if quick else \
+        tuple(range(0, 12)) + tuple(range(6 + body // 2, 10 + body))
+    for n in stops:
+        out.append(("read_all-given-up", [stop(ra, n)]))
+    for n in (2, 4, 3 + body // 2) if quick else tuple(range(0, 8)) + (3 + body // 2, 2 + body, 3 + body):
+        out.append(("read_all-without-latch-given-up", [stop(rn, n)]))
+        out.append(("latch+read_all-without-latch-given-up", [la, stop(rn, n)]))
+    for q in (0, 1, 1 + body // 2, body):
+        for kind in ("garble", "silence"):
+            out.append(("read_all-faulted", [dict(ra, fault=[q, kind])]))
+    for n in (1, 2, 3):
+        out.append(("value-given-up", [stop(va, n)]))
+        out.append(("value-faulted", [dict(va, fault=[n - 1, "garble"])]))
+    return out
+
+
+def _shard_hist(arg):
+    """Operations of one bank object one after the other on two units, ending in a read that is judged."""
+    bankobj, seed, quick = arg
+    res = Result()
+    run = _runner(res)
+    spec = bankspec(bankobj)
+    if bankobj not in lib()["banks"]:
+        return res
+    top = spec["last"]
+    keys = [r["key"] for r in spec["values"] if r["key"] in lib()["classes"]]
+    if not keys:
+        return res
+    base = seed * 31 + spec["bank"] * 5
+    n = 0
+    for ki in range(1 if quick else min(3, len(keys))):
+        key = keys[(seed + ki * 7) % len(keys)]
+        for name, pre in hist_prefixes(top, key, quick):
+            finals = []
+            for X in (0, 1):
+                finals.append({"op": "read_all", "unit": X, "use_latch": True, "drift": True})
+            finals.append({"op": "read_all", "unit": n % 2, "use_latch": False})
+            finals.append({"op": "value", "unit": (n + 1) % 2, "key": keys[(n + ki) % len(keys)]})
+            if not quick:
+                finals.append({"op": "read_all", "unit": (n + 1) % 2, "use_latch": False})
+                finals.append({"op": "value", "unit": n % 2, "key": key})
+            for fin in finals:
+                n += 1
+                # every other history: both units answer to the same address, in the same form (two DALI lines)
+                units = [_unit(ADDRS[(n + (i if n % 2 else 0) + n // 3) % 3], (seed + spec["bank"] + (5 * i if n % 2 else 0)) % 64,
+                               ["prng", base + 9000 + i], top if (n + i) % 7 else max(3, top - 1 - n % 3),
+                               lock=LOCKS[(n + i) % 3]) for i in range(2)]
+                run(_hist_case(bankobj, units, pre + [fin]), "history:" + name)
+    res.sample(_hist_case(bankobj, [_unit("gear", 3, ["prng", 1], top), _unit("gear", 3, ["prng", 2], top)],
+                          [{"op": "latch", "unit": 0}, {"op": "read_all", "unit": 1, "use_latch": True, "drift": True}]),
+               cls="history")
+    return res
+
+
 def _shard_canon(arg):
     """Deterministic demonstration cases: the only place where a confirmed defect is reported from."""
     res = Result()
@@ -1114,6 +1495,47 @@ def inter_case_st(draw, keys_by_bank, banks):
     return _inter_case(jobs, sched, cycle)
 
 
+@st.composite
+def history_case_st(draw, keys_by_bank, banks):
+    b = draw(st.sampled_from(banks))
+    spec = bankspec(b)
+    top = spec["last"]
+    keys = keys_by_bank.get(b) or []
+    nu = draw(st.sampled_from([1, 2, 2, 2, 3]))
+    units = []
+    for i in range(nu):
+        last = draw(st.one_of(st.just(top), st.just(top), st.none(), st.integers(2, min(254, top + 2))))
+        holes = draw(st.one_of(st.just([]), st.just([]), st.lists(st.integers(0, max(3, top)), max_size=2, unique=True)))
+        units.append(_unit(draw(st.sampled_from(ADDRS)), draw(st.integers(0, 63)), draw(image_st()), last, sorted(holes),
+                           draw(st.sampled_from(LOCKS))))
+        if i and draw(st.booleans()):
+            # the same address in the same form on another DALI line
+            units[-1]["addr"], units[-1]["short"] = units[0]["addr"], units[0]["short"]
+    names = ["latch", "latch", "latch", "unlatch", "unlatch", "read_all", "read_all", "other-controller", "is_locked",
+             "last_address"] + (["value", "value", "is_addressable", "value_is_locked"] if keys else [])
+
+    def one(final):
+        name = draw(st.sampled_from(["read_all", "read_all", "read_all", "value"] if final and keys else ["read_all"])) \
+            if final else draw(st.sampled_from(names))
+        o = {"op": name, "unit": draw(st.integers(0, nu - 1))}
+        if name in ("value", "is_addressable", "value_is_locked"):
+            o["key"] = draw(st.sampled_from(keys))
+        if name == "read_all":
+            o["use_latch"] = draw(st.sampled_from([True, True, False]))
+            o["drift"] = draw(st.booleans())
+        if name == "other-controller":
+            o["lock"] = draw(st.sampled_from([None, None, 0xFF, 0x55, 0xAA, 0x00]))
+        if name in READ_OPS and draw(st.integers(0, 3)) == 0:
+            o["fault"] = [draw(st.integers(0, max(1, top))), draw(st.sampled_from(["silence", "garble"]))]
+        if not final and name != "other-controller" and draw(st.integers(0, 2)) == 0:
+            o["stop"] = [draw(st.one_of(st.integers(0, 8), st.integers(0, top + 10))), draw(st.sampled_from(["close", "throw", "drop"]))]
+        return o
+
+    ops = [one(False) for _ in range(draw(st.integers(1, 6)))]
+    ops.append(one(True))
+    return _hist_case(b, units, ops)
+
+
 def _shard_hyp(arg):
     seed, n = arg
     res = Result()
@@ -1141,6 +1563,8 @@ def _shard_hyp(arg):
         by_bank.setdefault(all_rows()[k]["bankobj"], []).append(k)
     hyp.search(inter_case_st(by_bank, banks), filtered, res, max(1, n // 6), seed + 2, ID, nontrivial=is_nontrivial,
                classify=classify, extra_rounds_budget_s=15.0)
+    hyp.search(history_case_st(by_bank, banks), filtered, res, max(1, n // 8 if n <= 1000 else n // 12), seed + 3, ID, nontrivial=is_nontrivial,
+               classify=classify, extra_rounds_budget_s=15.0)
     return res
 
 
@@ -1161,6 +1585,8 @@ def run(ctx):
             shards.append((_shard_banks, (b, list(range(128, NLOC)), s, q, 1)))
     for b in bank_names():
         shards.append((_shard_inter, (b, s, q)))
+    for b in bank_names():
+        shards.append((_shard_hist, (b, s, q)))
     for k in range(16):
         shards.append((_shard_hyp, (s * 1000 + k, 600 if q else 6000)))
     ctx.pmap(_dispatch, shards)
